@@ -259,8 +259,9 @@ def lin_case(draw):
             "seed": draw(st.integers(0, 2 ** 32 - 1)),
             "a": draw(st.sampled_from([1.0, -1.0, 2.5, 0.0, 1e-3, -7.0])),
             "b": draw(st.sampled_from([1.0, 0.5, -3.0, 100.0])),
-            "start": draw(st.sampled_from([0.0, 1.0, -2.5, 1e3])),
-            "start2": draw(st.sampled_from([0.0, 4.0, -1.0])),
+            # python ints are kept as ints in the case (and in JSON): callers do pass start_value=0 or 2
+            "start": draw(st.sampled_from([0.0, 1.0, -2.5, 1e3, 2, 0, -3])),
+            "start2": draw(st.sampled_from([0.0, 4.0, -1.0, 5])),
             # sampled signals as stored by loggers: integer counts
             "signal_dtype": draw(st.sampled_from(["float64", "float64", "float64", "int64", "int32"]))}
 
@@ -290,14 +291,14 @@ def run_lin(case):
     err = np.abs(i12 - (a * i1 + b * i2)).max()
     require(err <= 1e-9 * scale, "linear_in_signal", f"order={order} n={n} nt={nt} err={err!r} scale={scale!r}")
     st_ = float(case["start"])
-    o1 = np.asarray(TI.integrate(t, s1, order, n, st_))
+    o1 = np.asarray(TI.integrate(t, s1, order, n, case["start"]))
     require(o1[0] == st_, "starts_at_start_value", f"start_value={st_} out[0]={o1[0]!r}")
     err = np.abs((o1 - i1) - st_).max()
     require(err <= 1e-9 * (abs(st_) + np.abs(i1).max() + 1e-300), "start_value_shifts_output",
             f"order={order} n={n} start={st_} err={err!r}")
     # first-difference structure does not depend on the start value
     st2 = float(case["start2"])
-    o2 = np.asarray(TI.integrate(t, s1, order, n, st2))
+    o2 = np.asarray(TI.integrate(t, s1, order, n, case["start2"]))
     err = np.abs((o2 - o1) - (st2 - st_)).max()
     require(err <= 1e-9 * (abs(st_) + abs(st2) + np.abs(i1).max() + 1e-300), "start_value_shifts_output",
             f"two starts err={err!r}")
@@ -306,6 +307,8 @@ def run_lin(case):
         classes.append("sub_1pct_jitter")
     if sdt != "float64":
         classes.append("integer_typed_signal")
+    if isinstance(case["start"], int) or isinstance(case["start2"], int):
+        classes.append("integer_start_value")
     return {"nontrivial": st_ != 0 or (a != 0 and nt > order + 2), "classes": classes}
 
 
